@@ -41,8 +41,14 @@ inline std::vector<std::string> split(const std::string& s, char sep) {
 	return r;
 }
 
+// results go to a private copy of the original stdout; fd 1 is redirected to stderr so that
+// library chatter ("[Info] ...") cannot corrupt the line protocol
+extern FILE* out;
+inline void putline(const std::string& l) { fputs(l.c_str(), out); fputc('\n', out); fflush(out); }
+
 typedef int (*cmd_fn)(int argc, char** argv);
 struct Cmd { const char* name; cmd_fn fn; };
 }
 
 int cmd_namematch(int, char**);
+int cmd_trace(int, char**);
